@@ -41,6 +41,15 @@ CLAIMED = {
  "C14": dict(tech="deterministic simulation: harness-owned optics under seeded device schedules; oracle = reference lens substitution and re-bending up to isomorphism, and evaluation of adapted reverse-derivative optics against reference reverse accumulation",
              text="Exploration by deterministic simulation: generated optics (forward/reverse object maps, residuals empty/single/multiple) checked against a reference substitution of lens diagrams (typing, composition, tensor, adapt), and the reverse-derivative lenses of polynomial circuits evaluated through strict::eval on (x, dy) against reference reverse-mode differentiation over Z/2^64, strict (all device configurations) and lax (Vec) entry points. Evidence, not proof.",
              ref="§5 C14"),
+ "C05": dict(tech="deterministic simulation: pool machine (long random operation sequences on a pool of diagrams under seeded device schedules, deep well-formedness + promised type + refinement against reference twins after every step) and single-datum corruption faults at the checked constructors",
+             text="Exploration by deterministic simulation: the standing invariant of the simulator (deep well-formedness from raw fields and the promised type after every library call) run as its own check on a pool machine of up to 30/40 operations per run under control, Vec and perturbed schedules, each result also refined against its plain reference twin; plus raw parts with at most one datum flipped handed to every checked constructor, which must accept iff the documented condition holds. Evidence, not proof.",
+             ref="§5 C05"),
+ "C06": dict(tech="deterministic simulation: coequalizer under seeded component numberings and universal map under seeded scatter fillers (SimKind), partition equality against a reference union-find; remaining clauses on two devices as control",
+             text="Exploration by deterministic simulation: coequalizers must be surjections whose fibres are exactly the generated classes under every component numbering, universal maps must exist, be returned and factor iff the map is constant on fibres (None, not a panic, otherwise) under every scatter filler; the clauses that consume no device choice are evaluated on both devices against functions-as-Vec and reported as control. Evidence, not proof.",
+             ref="§5 C06"),
+ "C20": dict(tech="deterministic simulation: every listed strict operation on VecKind, on the simulated device's control schedule and under >= 8 perturbed schedules (each open choice alone, fixed adversarial policies, random); results compared with Vec's up to isomorphism / identically",
+             text="Exploration by deterministic simulation, the property being the simulation itself: composition, tensor, functor and optic application, layering, evaluation, structural predicates and morphism tests run on the shipped backend and on an independently implemented conforming backend whose four open outcomes are decided adversarially; diagram results must be isomorphic to Vec's, everything else identical, layerings valid on each schedule. Evidence, not proof: one alternative backend family, small inputs.",
+             ref="§5 C20"),
 }
 NOTE = "Trusted: the harness's plain model, reference operations and isomorphism procedure (cross-checked by selftest), and that SimKind's outcome sets cover the four documented open choices. Sizes are small (<= ~10 nodes)."
 
